@@ -6,7 +6,7 @@ g=$1; shift
 cd /verif || exit 2
 if [ -n "$(git -C /repo status --porcelain)" ]; then echo "/repo not clean"; exit 2; fi
 git merge --no-edit -X theirs prop-$g || { echo "MERGE CONFLICT in /verif"; exit 1; }
-commits=$(git -C /repo rev-list --reverse main..fix-$g)
+commits=$(git -C /repo rev-list --no-merges --reverse main..fix-$g)
 for c in $commits; do
   if git -C /repo log main --format=%s | grep -qxF "$(git -C /repo log -1 --format=%s $c)"; then echo "skip already picked $c"; continue; fi
   git -C /repo cherry-pick $c || { echo "CHERRY-PICK CONFLICT at $c in /repo"; exit 1; }
